@@ -21,6 +21,8 @@
 //	           d  = the same composition made on the Go side from the leaves' transpiled texts
 //	                ("(?:"+Transpile(leaf)+")", juxtaposition, "(?:..){n}") - direct oracle
 //	           rt = CompileRegex(value.Source, value.Flags) again (the source re-read as a literal)
+//	           [;gd=<bits|->/..;gc=<foldmix|other>] only when Go's regexp disagrees with itself on some subterm's compiled text:
+//	                per subterm the verdicts of the text with alternation factoring blocked (main.go guardText), "-" where equal
 //
 // corpus / replay lines: "tsrc=<S> [subj=<hex,..>]".
 package main
@@ -665,6 +667,11 @@ func observeCompose(t *cterm, nodes []*cterm, subjects []string, diag bool) stri
 	return hx.Guard(func() string {
 		res := evalCompose(nodes)
 		var sub, sm []string
+		gd := make([]string, len(nodes)) // per subterm: verdicts of the factoring-guarded text where they differ, else "-"
+		gdAny, gc := false, ""
+		for i := range gd {
+			gd[i] = "-"
+		}
 		for i, n := range nodes {
 			op := string(n.op)
 			if n.op == 'R' {
@@ -677,6 +684,14 @@ func observeCompose(t *cterm, nodes []*cterm, subjects []string, diag bool) stri
 			}
 			sub = append(sub, strconv.Itoa(i)+":"+op+":"+sourceClass(res.re[i].Source))
 			sm = append(sm, bitsOf(res.re[i].MatchesString, subjects))
+			// Go's regexp against itself on this value's compiled text (main.go: guardText)
+			if b, c := guardBits(res.re[i].Re.String(), subjects, sm[len(sm)-1]); b != "" {
+				gdAny = true
+				gd[i] = b
+				if gc == "" || c == "other" {
+					gc = c
+				}
+			}
 		}
 		st := "ok"
 		fl, src, rt := "-", "-", "-"
@@ -713,7 +728,11 @@ func observeCompose(t *cterm, nodes []*cterm, subjects []string, diag bool) stri
 			}
 			rel = ";rel=" + strings.Join(rs, "/")
 		}
-		return "st=" + st + ";fl=" + fl + ";src=" + src + ";sub=" + strings.Join(sub, "/") + ";sm=" + strings.Join(sm, "/") + ";d=" + d + ";rt=" + rt + rel
+		guard := ""
+		if gdAny {
+			guard = ";gd=" + strings.Join(gd, "/") + ";gc=" + gc
+		}
+		return "st=" + st + ";fl=" + fl + ";src=" + src + ";sub=" + strings.Join(sub, "/") + ";sm=" + strings.Join(sm, "/") + ";d=" + d + ";rt=" + rt + guard + rel
 	})
 }
 
